@@ -127,6 +127,22 @@ def central_rules(ctx, facts, rep):
     starts = [c for c in cur if c[0] == "agg" and c[1] == "adt:Start"]
     good = bool(starts) and starts[0][3][0][1][0] == "field" and starts[0][3][0][1][2] == "header_start"
     ok &= rep.check(good, rule, "seek-header-start", where(fc, fc.span), "seeks to the entry's header_start first", "first seek target is %s" % ([show(c) for c in starts][:1]))
+    # every entry opened for decoding reads through find_content's window, unconditionally: that call is also what records the entry's
+    # data start (shared between clones) -- an "empty entries need no seek" shortcut leaves data_start() unrecorded for them
+    op = facts.one(ZA + "by_index_with_optional_password$")
+    exo = Ex(op)
+    mk = calls_matching(op, r"^read::make_crypto_reader$")
+    if not mk:
+        raise AnchorLost("make_crypto_reader call in by_index_with_optional_password")
+    srcs = []
+    for bb_, t_ in mk:
+        for a_ in t_["args"]:
+            v_ = norm(exo.operand(a_, (bb_, None)))
+            if any(x[0] == "call" and re.search(r"Read::take$|find_content$", x[1]) for x in walk(v_)) or (v_[0] == "phi"and any("take" in show(y) or "find_content" in show(y) for y in v_[1])):
+                srcs.append(v_)
+    good = bool(srcs) and all(v_[0] == "ok" and v_[1][0] == "call" and v_[1][1].endswith("read::find_content") for v_ in srcs)
+    ok &= rep.check(good, rule, "opened-through-find_content", where(op, mk[0][1]["span"]), "the entry's bounded reader is find_content(..)? on every path",
+                    "by_index opens an entry over %s: not (only) the window find_content locates and records" % [show(v_)[:90] for v_ in srcs])
     return ok
 
 
@@ -509,3 +525,6 @@ def run(ctx, rep):
     rep.floor("C03-SEARCH", 4)
     rep.floor("C03-NAMES", 5)
     rep.assume("HashMap::insert overwrites an existing key (std contract)")
+    from rules.shared_refusals import read_refusals
+    read_refusals(ctx, facts, rep)     # C03-REFUSALS: the reader turns away nothing it used to accept (and keeps every refusal it had)
+    rep.floor("C03-REFUSALS", 25)
